@@ -56,6 +56,17 @@ impl Timestamp {
   };
 
   pub fn now() -> Self {
+    #[cfg(rustdds_verif)]
+    {
+      // virtual time of the link rig (verif::clock): inactive while the offset is zero
+      let off = crate::verif::clock::ts_offset_ns();
+      if off != 0 {
+        if let Ok(t) = Self::try_from(Utc::now()) {
+          let ticks = ((off / 1_000_000_000) << 32) + (((off % 1_000_000_000) << 32) / 1_000_000_000);
+          return Self::from_ticks(t.to_ticks() + ticks);
+        }
+      }
+    }
     Self::try_from(Utc::now()).unwrap_or_else(|e| {
       error!("{e}");
       // We get an invalid timestamp, if the system clock is set more than
